@@ -95,7 +95,7 @@ func crashOptions(s *crashSpec) badger.Options {
 		WithMemTableSize(s.MemSize).WithValueThreshold(32).WithValueLogFileSize(1 << 20).
 		WithNumCompactors(s.NumComp).WithNumMemtables(4).WithBlockSize(256).
 		WithBaseTableSize(8 << 10).WithBaseLevelSize(32 << 10).WithLevelSizeMultiplier(2).
-		WithMaxLevels(4).WithNumLevelZeroTables(2).WithNumLevelZeroTablesStall(6).
+		WithMaxLevels(4).WithNumLevelZeroTables(2).WithNumLevelZeroTablesStall(200).
 		WithMetricsEnabled(false).WithCompactL0OnClose(false).WithDetectConflicts(false).
 		WithBlockCacheSize(1 << 20).WithIndexCacheSize(1 << 20)
 	return opt
@@ -364,7 +364,6 @@ func crashProbe(c *Ctx) error {
 	if err := json.Unmarshal(js, &s); err != nil {
 		return err
 	}
-	s.NumComp = 0 // the probe only reads; no background compaction
 	var out probeOut
 	db, err := badger.Open(crashOptions(&s))
 	if err != nil {
@@ -634,12 +633,28 @@ func crashOracle(s *crashSpec, total, acked int, po *probeOut) crashVerdict {
 	}
 	present := map[kv]probeEntry{}
 	byKey := map[string][]probeEntry{}
-	for _, e := range po.Entries {
+	for i, e := range po.Entries {
+		// a stored value that is not the one any commit wrote for this key (e.g. an empty value
+		// read through a pointer into a missing value-log file) counts as unreadable
+		if !e.Deleted && !strings.HasPrefix(e.Val, "!ERR") {
+			ci := crashCommitOfValue(e.Val)
+			okv := false
+			if ci >= 1 && ci <= total {
+				for _, w := range crashCommit(s, ci) {
+					if w.Key == e.Key && w.Val == e.Val {
+						okv = true
+					}
+				}
+			}
+			if !okv && (strings.HasPrefix(e.Key, "s") || strings.HasPrefix(e.Key, "u")) && (ci < 1 || ci > total) {
+				e.Val = "!ERR value reads as " + strconv.Quote(crashShort(e.Val))
+				po.Entries[i] = e
+			}
+		}
 		present[kv{e.Key, e.Version}] = e
 		byKey[e.Key] = append(byKey[e.Key], e)
 		if strings.HasPrefix(e.Val, "!ERR") {
-			ci := -1
-			v.Sig, v.What = "c08-value-unreadable", fmt.Sprintf("key %s@%d: %s (commit %d)", e.Key, e.Version, e.Val, ci)
+			v.Sig, v.What = "c08-value-unreadable", fmt.Sprintf("key %s@%d: %s", e.Key, e.Version, e.Val)
 		}
 	}
 	// version of each commit: from its s0 write (every commit writes s0 := vNNNNNN)
@@ -810,6 +825,7 @@ type crashTrace struct {
 	kinds  map[string]int
 	wals   map[uint64]bool // WAL fids the trace has created and not unlinked
 	walcur, vlogcur uint64
+	sealedW         uint64 // WALs up to this fid have been handed to the flusher (PSeal emitted)
 }
 
 // the crashed directory may be AHEAD of the hook log by the part of a step another goroutine
@@ -834,6 +850,10 @@ func (t *crashTrace) reconcile(dir string) []string {
 			fid, _ := strconv.ParseUint(strings.TrimSuffix(n, ".mem"), 10, 64)
 			seen[fid] = true
 			if fid > t.walcur {
+				if t.sealedW < t.walcur {
+					extra = append(extra, "PSeal")
+					t.sealedW = t.walcur
+				}
 				extra = append(extra, fmt.Sprintf("PE (Create (Wal %d))", fid))
 				if fi.Size() > 0 {
 					extra = append(extra, fmt.Sprintf("PE (Init (Wal %d))", fid))
@@ -901,6 +921,7 @@ func crashBuildTrace(s *crashSpec, evs []crashEvent, upto int) *crashTrace {
 	nVlogWritten, nReqDone := 0, 0
 	walUnits := map[uint64][]int{} // WAL fid -> requests completed in it
 	flushedUpTo := uint64(0)
+	nFlushBegun := uint64(0)
 	lastFlushTable := uint64(0)
 	opened := false
 	emit := func(e string) { t.evs = append(t.evs, e) }
@@ -992,11 +1013,23 @@ func crashBuildTrace(s *crashSpec, evs []crashEvent, upto int) *crashTrace {
 		case "persist.batch.ack":
 			emit("PAck")
 		case "persist.mem.rotated":
+			if t.sealedW < walcur {
+				emit("PSeal")
+				t.sealedW = walcur
+			}
 			walcur = ev.Args[0]
 			t.wals[walcur] = true
 			emit(fmt.Sprintf("PE (Create (Wal %d))", walcur))
 			emit(fmt.Sprintf("PE (Init (Wal %d))", walcur))
 		case "persist.flush.begin":
+			// flushes are serial and in WAL order: the k-th flush takes the k-th WAL; when that is
+			// the current WAL the writer has already handed it over (ensureRoomForWrite pushes to
+			// flushChan before it creates the next WAL)
+			nFlushBegun++
+			if nFlushBegun == walcur && t.sealedW < walcur {
+				emit("PSeal")
+				t.sealedW = walcur
+			}
 		case "persist.flush.table":
 			id := ev.Args[0]
 			lastFlushTable = id
@@ -1097,6 +1130,9 @@ func crashEntsTerm(s *crashSpec, po *probeOut, total int) (string, bool) {
 	for _, e := range po.Entries {
 		ci := -1
 		val := uint64(0)
+		if strings.HasPrefix(e.Val, "!ERR") {
+			continue // unreadable: the model leaves such entries out
+		}
 		if e.Deleted {
 			ci = int(e.Version) // first session: version = commit index
 		} else {
@@ -1438,7 +1474,7 @@ func crashRunKill(c *Ctx, e *crashEnv, fixDir, fixZero bool) error {
 	jobs = append(jobs, job{0, 1, "emulate", 0, "wal-delete-window"}, job{1, 0, "emulate", 0, "wal-create-window"})
 	mechs := []string{"exit-hook", "exit-hit", "sigkill", "exit-hook", "exit-hit"}
 	for k := 2; k < c.N+2; k++ {
-		jobs = append(jobs, job{k, c.Rng.Intn(len(wls)), mechs[k%len(mechs)], c.Rng.Int63(), ""})
+		jobs = append(jobs, job{k, []int{0, 1, 2, 3, 4, 0, 1}[c.Rng.Intn(7)], mechs[k%len(mechs)], c.Rng.Int63(), ""})
 	}
 	results := make([]crashResult, len(jobs))
 	sem := make(chan struct{}, 5)
